@@ -40,6 +40,11 @@ def walkRun (stopAt : RunPc → Bool) (ok : Bool) : Nat → St → List Sync
 def modelRunOk : List Sync := walkRun (· == .rotRLock) true 40 { run := .called }
 def modelRunErr : List Sync := walkRun (· == .retErr) false 40 { run := .called }
 
+/-- The same two walks started with Run's ctx already done (`runCtx := true`): what `Run` executes must
+not depend on it — in particular the failure path still contains `close(readyCh)`. -/
+def modelRunOkCtxDone : List Sync := walkRun (· == .rotRLock) true 40 { run := .called, runCtx := true }
+def modelRunErrCtxDone : List Sync := walkRun (· == .retErr) false 40 { run := .called, runCtx := true }
+
 /-- A state in the middle of rotation: initial fetch done, SVID 0 installed. -/
 def rotBase : St :=
   { running := true, ready := true, svid := some 0, nfetch := 1, init := some true, good := [0] }
